@@ -62,13 +62,52 @@ enum ClassAtom {
 struct ClassSet {
     codepoints: CodePointSet,
     alternatives: ClassSetAlternativeStrings,
+    /// Whether operands are compared case-insensitively (the i flag is in force).
+    icase: bool,
 }
 
 impl ClassSet {
-    fn new() -> Self {
+    fn new(icase: bool) -> Self {
         ClassSet {
             codepoints: CodePointSet::new(),
             alternatives: ClassSetAlternativeStrings::new(),
+            icase,
+        }
+    }
+
+    /// ES MaybeSimpleCaseFolding, expressed on closed sets: under the i flag every operand is
+    /// closed under simple case folding (strings are folded) *before* it takes part in a union,
+    /// intersection or subtraction, so that e.g. [[A]&&[a]] is not empty.
+    fn case_closed(&self, operand: ClassSetOperand) -> ClassSetOperand {
+        if !self.icase {
+            return operand;
+        }
+        let fold_strings = |strings: ClassSetAlternativeStrings| {
+            ClassSetAlternativeStrings(
+                strings
+                    .0
+                    .into_iter()
+                    .map(|s| s.iter().map(|&c| unicode::fold(c)).collect())
+                    .collect(),
+            )
+        };
+        match operand {
+            ClassSetOperand::ClassSetCharacter(c) => {
+                let mut cps = CodePointSet::new();
+                cps.add_one(c);
+                ClassSetOperand::CharacterClassEscape(unicode::add_icase_code_points(cps))
+            }
+            ClassSetOperand::CharacterClassEscape(cps) => {
+                ClassSetOperand::CharacterClassEscape(unicode::add_icase_code_points(cps))
+            }
+            ClassSetOperand::Class(mut class) => {
+                class.codepoints = unicode::add_icase_code_points(class.codepoints);
+                class.alternatives = fold_strings(class.alternatives);
+                ClassSetOperand::Class(class)
+            }
+            ClassSetOperand::ClassStringDisjunction(s) => {
+                ClassSetOperand::ClassStringDisjunction(fold_strings(s))
+            }
         }
     }
 
@@ -105,6 +144,7 @@ impl ClassSet {
     }
 
     fn union_operand(&mut self, operand: ClassSetOperand) {
+        let operand = self.case_closed(operand);
         match operand {
             ClassSetOperand::ClassSetCharacter(c) => {
                 self.codepoints.add_one(c);
@@ -123,6 +163,7 @@ impl ClassSet {
     }
 
     fn intersect_operand(&mut self, operand: ClassSetOperand) {
+        let operand = self.case_closed(operand);
         match operand {
             ClassSetOperand::ClassSetCharacter(c) => {
                 if self.codepoints.contains(c) {
@@ -188,6 +229,7 @@ impl ClassSet {
     }
 
     fn subtract_operand(&mut self, operand: ClassSetOperand) {
+        let operand = self.case_closed(operand);
         match operand {
             ClassSetOperand::ClassSetCharacter(c) => {
                 self.codepoints.remove(&[Interval { first: c, last: c }]);
@@ -381,14 +423,21 @@ fn add_icase(cps: CodePointSet, unicode: bool) -> CodePointSet {
     }
 }
 
-fn add_class_atom(bc: &mut BracketContents, atom: ClassAtom) {
+fn add_class_atom(bc: &mut BracketContents, atom: ClassAtom, icase: bool, unicode: bool) {
     match atom {
         ClassAtom::CodePoint(c) => bc.cps.add_one(c),
         ClassAtom::CharacterClass {
             class_type,
             positive,
         } => {
-            bc.cps.add_set(codepoints_from_class(class_type, positive));
+            if icase && !positive {
+                // \W, \D, \S under i: the complement of the case-closed positive set
+                // (closing the complement itself would pull e.g. 's' into [\W] via U+017F).
+                let closed = add_icase(codepoints_from_class_positive(class_type), unicode);
+                bc.cps.add_set(closed.inverted());
+            } else {
+                bc.cps.add_set(codepoints_from_class(class_type, positive));
+            }
         }
         ClassAtom::Range { iv, negate } => {
             if negate {
@@ -912,14 +961,14 @@ where
 
             // Check for a dash; we may have a range.
             if !self.try_consume('-') {
-                add_class_atom(&mut result, first);
+                add_class_atom(&mut result, first, self.flags.icase, self.flags.unicode);
                 continue;
             }
 
             let Some(second) = self.try_consume_bracket_class_atom()? else {
                 // No second atom. For example: [a-].
-                add_class_atom(&mut result, first);
-                add_class_atom(&mut result, ClassAtom::CodePoint(u32::from('-')));
+                add_class_atom(&mut result, first, self.flags.icase, self.flags.unicode);
+                add_class_atom(&mut result, ClassAtom::CodePoint(u32::from('-')), self.flags.icase, self.flags.unicode);
                 continue;
             };
 
@@ -944,9 +993,9 @@ where
             }
 
             // If it does not match a range treat as any match single characters.
-            add_class_atom(&mut result, first);
-            add_class_atom(&mut result, ClassAtom::CodePoint(u32::from('-')));
-            add_class_atom(&mut result, second);
+            add_class_atom(&mut result, first, self.flags.icase, self.flags.unicode);
+            add_class_atom(&mut result, ClassAtom::CodePoint(u32::from('-')), self.flags.icase, self.flags.unicode);
+            add_class_atom(&mut result, second, self.flags.icase, self.flags.unicode);
         }
     }
 
@@ -1076,7 +1125,7 @@ where
     // CharacterClass :: ClassContents :: ClassSetExpression
     // `in_negated_class` forbids string operands. It does not invert the result.
     fn consume_class_set_expression(&mut self, in_negated_class: bool) -> Result<ClassSet, Error> {
-        let mut result = ClassSet::new();
+        let mut result = ClassSet::new(self.flags.icase);
 
         let first = match self.peek() {
             Some(0x5D /* ] */) => {
@@ -1238,6 +1287,10 @@ where
                 let negate_set = self.try_consume('^');
                 let mut result = self.consume_class_set_expression(negate_set)?;
                 if negate_set {
+                    // The complement is taken of the case-closed set.
+                    if self.flags.icase {
+                        result.codepoints = unicode::add_icase_code_points(result.codepoints);
+                    }
                     result.codepoints = result.codepoints.inverted();
                 }
                 self.depth -= 1;
@@ -1292,7 +1345,7 @@ where
                     // CharacterClassEscape :: D
                     0x44 /* D */ => {
                         self.consume('D');
-                        Ok(CharacterClassEscape(codepoints_from_class(CharacterClassType::Digits, false)))
+                        Ok(CharacterClassEscape(self.negated_class_escape(CharacterClassType::Digits)))
                     }
                     // CharacterClassEscape :: s
                     0x73 /* s */ => {
@@ -1302,7 +1355,7 @@ where
                     // CharacterClassEscape :: S
                     0x53 /* S */ => {
                         self.consume('S');
-                        Ok(CharacterClassEscape(codepoints_from_class(CharacterClassType::Spaces, false)))
+                        Ok(CharacterClassEscape(self.negated_class_escape(CharacterClassType::Spaces)))
                     }
                     // CharacterClassEscape :: w
                     0x77 /* w */ => {
@@ -1312,7 +1365,7 @@ where
                     // CharacterClassEscape :: W
                     0x57 /* W */ => {
                         self.consume('W');
-                        Ok(CharacterClassEscape(codepoints_from_class(CharacterClassType::Words, false)))
+                        Ok(CharacterClassEscape(self.negated_class_escape(CharacterClassType::Words)))
                     }
                     // CharacterClassEscape :: [+UnicodeMode] p{ UnicodePropertyValueExpression }
                     0x70 /* p */ => {
@@ -1334,9 +1387,12 @@ where
                         self.consume('P');
                         match self.try_consume_unicode_property_escape()? {
                             PropertyEscapeKind::CharacterClass(s) => {
-                                Ok(CharacterClassEscape(CodePointSet::from_sorted_disjoint_intervals(
-                                    s.to_vec(),
-                                ).inverted()))
+                                let mut cps = CodePointSet::from_sorted_disjoint_intervals(s.to_vec());
+                                // Under i the complement is taken of the case-closed set.
+                                if self.flags.icase {
+                                    cps = unicode::add_icase_code_points(cps);
+                                }
+                                Ok(CharacterClassEscape(cps.inverted()))
                             }
                             PropertyEscapeKind::StringSet(_) => error("Invalid character escape"),
                         }
@@ -1357,6 +1413,15 @@ where
             // ClassSetRange :: ClassSetCharacter
             _ => Ok(ClassSetCharacter(self.consume_class_set_character()?)),
         }
+    }
+
+    /// \D, \S, \W inside a v-mode class: the complement of the (case-closed, under i) positive set.
+    fn negated_class_escape(&self, ct: CharacterClassType) -> CodePointSet {
+        let mut cps = codepoints_from_class_positive(ct);
+        if self.flags.icase {
+            cps = unicode::add_icase_code_points(cps);
+        }
+        cps.inverted()
     }
 
     // ClassSetCharacter
@@ -1687,7 +1752,10 @@ where
                             // Per ES2024: apply SimpleCaseFolding to the property set first.
                             // For \P (inverted): complement before expansion so that case
                             // variants of the complement are included (existential quantifier).
-                            if negate {
+                            if negate && self.flags.unicode_sets {
+                                // v: the complement of the case-folded set.
+                                cps = unicode::add_icase_code_points(cps).inverted();
+                            } else if negate {
                                 cps = unicode::add_icase_code_points(cps.inverted());
                             } else {
                                 cps = unicode::add_icase_code_points(cps);
